@@ -37,3 +37,7 @@ pub open spec fn if_ok(r: core::Expr, c: Expr, t: Expr, e: Expr, ty: Ty) -> bool
 pub open spec fn while_ok(r: core::Expr, c: Expr, b: Expr, ty: Ty) -> bool {
     r matches core::Expr::EWhile { cond, body, ty: rt } && *cond == core_of(c) && *body == core_of(b) && rt == ty
 }
+// operands in order
+pub open spec fn cores_of(items: Seq<Expr>, out: Seq<core::Expr>) -> bool {
+    out.len() == items.len() && forall|i: int| 0 <= i < items.len() ==> #[trigger] out[i] == core_of(items[i])
+}
